@@ -146,6 +146,11 @@ func runC04SlowHandler(c *core.Ctx) {
 		c.Failf("C04/delivered-states-differ-from-transitions", "the state handler of A (blocked in its callback #%d while the session went on, then released) was called with %v; the transitions made, per agent, were %v", blockAt, got, all)
 		return
 	}
+	if ov := A.Overlaps(); len(ov) > 0 {
+		// "delivered in order": the handler is told about transition N+1 only after it has returned from N
+		c.Failf("C04/state-handler-entered-while-running", "the state handler of A was entered again while an earlier call had not returned (it was blocked in callback #%d); states delivered: %v", blockAt, got)
+		return
+	}
 	for i := 1; i < len(got); i++ {
 		if got[i] == got[i-1] {
 			c.Failf("C04/repeated-state", "consecutive repeat in the delivered states %v", got)
